@@ -42,15 +42,15 @@ var spendReasons = map[string]bool{"txn: input not unspent": true, "double spend
 var hourReasons = map[string]bool{"txn: insufficient hours": true, "txn: input hours sum overflow": true}
 
 type ledgerSim struct {
-	refused map[int][]model.Block // per node: blocks it has refused so far (they may be offered again, see opReoffer)
-	early   map[model.Hash]bool   // header hashes of refused blocks that were ahead of the node's head when refused
-	c     *sim.Ctx
-	w     *world
-	prop  string
-	known []model.Txn   // every transaction generated so far
-	pubBlocks []model.Block // blocks created by the real publisher node (index = seq-1)
-	desync bool
-	lastHours map[model.Hash]*big.Int // C03 monotonicity: last observed accrued hours per unspent (publisher node)
+	refused     map[int][]model.Block // per node: blocks it has refused so far (they may be offered again, see opReoffer)
+	early       map[model.Hash]bool   // header hashes of refused blocks that were ahead of the node's head when refused
+	c           *sim.Ctx
+	w           *world
+	prop        string
+	known       []model.Txn   // every transaction generated so far
+	pubBlocks   []model.Block // blocks created by the real publisher node (index = seq-1)
+	desync      bool
+	lastHours   map[model.Hash]*big.Int // C03 monotonicity: last observed accrued hours per unspent (publisher node)
 	lastHoursAt uint64
 }
 
@@ -155,6 +155,10 @@ func (s *ledgerSim) step() {
 		s.opIOFault()
 		return
 	}
+	if s.prop != "C05" && t.Chance("read-overlaps-write", 1, 25) {
+		s.opOverlap()
+		return
+	}
 	switch t.Pick("op", mix.inject, mix.mut, mix.re, mix.create, mix.deliver, mix.forge, mix.refresh, mix.rminv, mix.clock, mix.restart, mix.query, mix.gossip) {
 	case 0:
 		s.opInject(false)
@@ -194,18 +198,39 @@ func (s *ledgerSim) opIOFault() {
 	t := c.T
 	n := s.pickNode()
 	fired := 0
-	dbutil.VerifBeforeUpdate = func(db *dbutil.DB, name string) error {
+	// the transaction fails before it begins, or - everything the operation wanted to write is written - when it commits
+	atCommit := t.Bool("io-at-commit")
+	hook := func(db *dbutil.DB, name string) error {
 		if db.Path() != n.path || fired > 0 {
 			return nil
 		}
 		fired++
+		if atCommit {
+			c.Logf("I/O error injected into the commit of n%d transaction %q", n.id, name)
+			return errSimCommit
+		}
 		c.Logf("I/O error injected into n%d transaction %q", n.id, name)
 		return errSimIO
 	}
-	defer func() { dbutil.VerifBeforeUpdate = nil }()
+	if atCommit {
+		dbutil.VerifBeforeCommit = hook
+	} else {
+		dbutil.VerifBeforeUpdate = hook
+	}
+	defer func() { dbutil.VerifBeforeUpdate, dbutil.VerifBeforeCommit = nil, nil }()
 	before := n.dbFingerprint(nil)
 	var err error
 	what := ""
+	// outputs the failed operation would have created: none of them may be reported as unspent afterwards
+	var wouldCreate []model.Hash
+	outputsOf := func(txs []model.Txn) {
+		for i := range txs {
+			h := txs[i].Hash()
+			for _, o := range txs[i].Out {
+				wouldCreate = append(wouldCreate, model.UxID(h, o))
+			}
+		}
+	}
 	switch t.Pick("io-op", 4, 4, 2, 2) {
 	case 0: // a valid new transaction
 		tx, ok := s.w.mkSpend(n.m, false)
@@ -223,6 +248,9 @@ func (s *ledgerSim) opIOFault() {
 		if n.publisher {
 			s.advance(time.Duration(1+t.Int("create-gap", 20)) * time.Second)
 			what = "create-block"
+			for _, h := range n.m.PoolHashes() {
+				outputsOf([]model.Txn{n.m.Pool[h].Txn})
+			}
 			_, err = n.v.CreateAndExecuteBlock()
 			if err != nil && fired == 0 {
 				return // nothing to create: no transaction was attempted
@@ -233,6 +261,7 @@ func (s *ledgerSim) opIOFault() {
 				return
 			}
 			what = fmt.Sprintf("execute block %d", next)
+			outputsOf(s.pubBlocks[next-1].Txns)
 			err = n.v.ExecuteSignedBlock(cBlock(&s.pubBlocks[next-1]))
 		}
 	case 2:
@@ -254,7 +283,11 @@ func (s *ledgerSim) opIOFault() {
 		}
 		return
 	}
-	c.Count("fault.io_error_at_txn_begin")
+	if atCommit {
+		c.Count("fault.io_error_at_commit")
+	} else {
+		c.Count("fault.io_error_at_txn_begin")
+	}
 	c.Kind(kIOFault, err != nil)
 	c.Logf("n%d %s with failing disk -> %v", n.id, what, err)
 	if err == nil {
@@ -263,7 +296,93 @@ func (s *ledgerSim) opIOFault() {
 	}
 	if n.dbFingerprint(nil) != before {
 		c.Violate("failed-op-changed-db", strings.Fields(what)[0], "n%d %s failed with %v but the database content changed", n.id, what, err)
+		return
 	}
+	s.checkByHash(n, wouldCreate, "after "+what+" failed")
+}
+
+var errSimCommit = fmt.Errorf("simulated disk I/O error at the commit of a database transaction")
+
+// checkByHash: looking outputs up by their id agrees with the unspent set of the accepted chain - an output the
+// chain has not created, or has spent, is not returned.
+func (s *ledgerSim) checkByHash(n *node, ids []model.Hash, when string) {
+	c := s.c
+	for _, id := range ids {
+		_, want := n.m.Unspent[id]
+		uxs, err := n.v.GetUnspentOutputs([]cipher.SHA256{cipher.SHA256(id)})
+		got := err == nil && len(uxs) == 1
+		if got != want {
+			what := "an output that is not in the unspent set of the accepted chain is returned as unspent"
+			sig := "phantom-or-spent-output-returned"
+			if want {
+				what, sig = "an unspent output of the accepted chain is not found", "unspent-output-not-found"
+			}
+			c.Violate("unspent-lookup-disagrees", sig, "n%d %s: lookup of output %s by id: %s (err=%v)", n.id, when, short(id), what, err)
+			return
+		}
+		c.Count("probe.unspent_lookup_by_id_compared")
+	}
+}
+
+// opOverlap: a read-only query of a node is in progress - its database snapshot is taken - while the node
+// executes a block or admits a transaction; then the query reads on.  A real node answers API requests on their own
+// goroutines while the daemon loop writes, and the database lets a reader that started earlier see the old state
+// for as long as it runs.  What the query returns is its own business (the old state); the point is what the node
+// believes afterwards: nothing the late reader saw may leak into what later queries and checks see.
+func (s *ledgerSim) opOverlap() {
+	c := s.c
+	t := c.T
+	n := s.pickNode()
+	var ids []model.Hash
+	for _, h := range n.m.PoolHashes() {
+		ids = append(ids, n.m.Pool[h].Txn.In...)
+	}
+	if !n.publisher {
+		if next := len(n.m.Chain); next >= 1 && next <= len(s.pubBlocks) {
+			for i := range s.pubBlocks[next-1].Txns {
+				ids = append(ids, s.pubBlocks[next-1].Txns[i].In...)
+			}
+		}
+	}
+	if owned := s.w.ownedUnspents(n.m); len(owned) > 0 {
+		ids = append(ids, owned[t.Int("overlap-extra", len(owned))])
+	}
+	if len(ids) == 0 {
+		return
+	}
+	fired := false
+	dbutil.VerifInView = func(db *dbutil.DB, name string) {
+		if fired || db.Path() != n.path {
+			return
+		}
+		fired = true
+		dbutil.VerifInView = nil
+		c.Logf("n%d: query %q has its snapshot; the node goes on working", n.id, name)
+		switch {
+		case n.publisher:
+			s.opCreateBlock()
+		case len(n.m.Chain) >= 1 && len(n.m.Chain) <= len(s.pubBlocks):
+			s.submitBlock(n, s.pubBlocks[len(n.m.Chain)-1], "publisher-block:during-query", kDeliver)
+		default:
+			if tx, ok := s.w.mkSpend(n.m, false); ok {
+				s.submitTxn(n, tx, false, kInject, "inject-during-query")
+			}
+		}
+	}
+	defer func() { dbutil.VerifInView = nil }()
+	var cids []cipher.SHA256
+	for _, id := range ids {
+		cids = append(cids, cipher.SHA256(id))
+	}
+	_, _ = n.v.GetUnspentOutputs(cids)
+	for _, id := range ids {
+		_, _ = n.v.GetUnspentOutputs([]cipher.SHA256{cipher.SHA256(id)})
+	}
+	if !fired || c.Failed() || s.desync {
+		return
+	}
+	c.Count("fault.read_overlaps_write")
+	s.checkByHash(n, ids, "after a query that overlapped a write")
 }
 
 // opTieBurst floods the publisher's pool with transactions that tie exactly
@@ -395,7 +514,12 @@ func (s *ledgerSim) opInject(mutated bool) {
 	t := s.c.T
 	n := s.pickNode()
 	fat := s.prop == "C05" && t.Chance("fat", 1, 6)
+	if s.prop != "C05" && t.Chance("oversize", 1, 15) {
+		// a transaction above the size limit: a soft violation by itself, possibly combined with a hard one below
+		fat, s.w.oversize = true, true
+	}
 	tx, ok := s.w.mkSpend(n.m, fat)
+	s.w.oversize = false
 	if !ok {
 		s.c.Kind(kInject, false)
 		return
